@@ -378,6 +378,19 @@ fn run_random(ctx: &mut Ctx, rng: &mut Rng, _index: u64) {
             ctx.count("transfer_encoding_on_two_field_lines", 1);
         }
     }
+    // a Connection field that NAMES other fields of this head (Keep-Alive, Upgrade, arbitrary ones):
+    // the named fields are reported like any other - only Transfer-Encoding is ever hidden
+    if rng.chance(1, 5) && !fields.is_empty() && fields.len() < 99 {
+        let mut named: Vec<String> = (0..rng.range(1, 2)).map(|_| fields[rng.usize_below(fields.len())].name.clone()).filter(|n| !n.eq_ignore_ascii_case("transfer-encoding")).collect();
+        if rng.bool() && fields.len() < 98 {
+            fields.push(Field { name: "Keep-Alive".into(), raw_value: b" timeout=5, max=100".to_vec() });
+            named.push(if rng.bool() { "Keep-Alive".into() } else { "keep-alive".into() });
+        }
+        named.push("close".into());
+        let at = rng.range(0, fields.len());
+        fields.insert(at, Field { name: rng.pick(&["Connection", "connection"]).to_string(), raw_value: format!(" {}", named.join(", ")).into_bytes() });
+        ctx.count("heads_whose_connection_field_names_other_fields", 1);
+    }
     let code = 100 + rng.below(900) as u16;
     // codes that imply "no body" are fine: the body is not read here
     let reason: Option<Vec<u8>> = match rng.below(6) {
